@@ -472,7 +472,7 @@ func (fr *Frame) inlinable(f *ssa.Function) bool {
 		}
 		for _, in := range b.Instrs {
 			switch in.(type) {
-			case *ssa.Go, *ssa.Select:
+			case *ssa.Go:
 				return false
 			}
 		}
